@@ -74,7 +74,7 @@ type Relay struct {
 	KnownKeyWrong bool   `json:"known_key_wrong,omitempty"` // the known key is key 8, not the relay's
 	GraceMs       int    `json:"grace_ms,omitempty"`
 	// BadAddress: the configured address is unusable (no relay behind it):
-	// unparseable-bracket | unparseable-space | unparseable-port | refused
+	// unparseable-bracket | unparseable-space | unparseable-port | dropping (accepts and closes connections)
 	BadAddress string `json:"bad_address,omitempty"`
 	Script     []Resp `json:"script"`
 }
@@ -299,7 +299,7 @@ func genCase(t *rapid.T, strategy, via string) Case {
 			rl.GraceMs = rangeU(t, "grace", 5, 40)
 		}
 		if nRelays > 1 {
-			rl.BadAddress = pick(t, "badAddress", opt{"", 95}, opt{"unparseable-bracket", 1}, opt{"unparseable-space", 1}, opt{"unparseable-port", 1}, opt{"refused", 2})
+			rl.BadAddress = pick(t, "badAddress", opt{"", 95}, opt{"unparseable-bracket", 1}, opt{"unparseable-space", 1}, opt{"unparseable-port", 1}, opt{"dropping", 2})
 		}
 		n := 1
 		if strategy == "deadline" {
@@ -422,20 +422,21 @@ func (m *lagMeter) finish() time.Duration {
 // run
 
 type observation struct {
-	res       *blockauctioneer.Results
-	err       error
-	panicked  string
-	served    []servedRec
-	prepared  [][]*prepared
-	ports     map[string]int // host:port -> relay index
-	deadline  time.Time
-	callStart time.Time
-	callEnd   time.Time
-	maxLag    time.Duration // worst wake-up lag seen by the lag meter and by the relay handlers
-	maxPipe   time.Duration // worst measured delay of the strategy's own request pipeline
-	overrun   time.Duration // return of the call relative to the deadline
-	badPaths  int
-	hungCall  bool
+	res         *blockauctioneer.Results
+	err         error
+	panicked    string
+	served      []servedRec
+	prepared    [][]*prepared
+	ports       map[string]int // host:port -> relay index
+	deadline    time.Time
+	callStart   time.Time
+	callEnd     time.Time
+	maxLag      time.Duration // worst wake-up lag seen by the lag meter and by the relay handlers
+	maxPipe     time.Duration // worst measured delay of the strategy's own request pipeline
+	overrun     time.Duration // return of the call relative to the deadline
+	badPaths    int
+	badPathSeen string
+	hungCall    bool
 	// blockrelay layer
 	layer *layerObs
 	hist  *histObs
@@ -515,19 +516,7 @@ func run(c *Case) (*observation, error) {
 	relays := make([]*relayDouble, len(c.Relays))
 	relayConfigs := make([]*beaconblockproposer.RelayConfig, len(c.Relays))
 	o.prepared = make([][]*prepared, len(c.Relays))
-	// live relays first, refused ones last, so that a freed port is not taken by a later relay of the case
-	order := make([]int, 0, len(c.Relays))
 	for i := range c.Relays {
-		if c.Relays[i].BadAddress != "refused" {
-			order = append(order, i)
-		}
-	}
-	for i := range c.Relays {
-		if c.Relays[i].BadAddress == "refused" {
-			order = append(order, i)
-		}
-	}
-	for _, i := range order {
 		rl := &c.Relays[i]
 		variants := make([]*relayVariant, len(triples))
 		for k, tv := range triples {
@@ -569,8 +558,9 @@ func run(c *Case) (*observation, error) {
 		if rl.KeyKnown == "url" || rl.KeyKnown == "both" {
 			rc.Address = fmt.Sprintf("http://%s@%s", hx(known[:]), u.Host)
 		}
-		if rl.BadAddress == "refused" {
-			relays[i].srv.Close() // nothing listens at the address any more
+		if rl.BadAddress == "dropping" {
+			// (closing the listener instead would hand the port to any other process of the machine)
+			relays[i].drop = true
 		}
 	}
 	cleanup := func() {
@@ -652,6 +642,9 @@ func run(c *Case) (*observation, error) {
 				if r != nil {
 					r.mu.Lock()
 					o.badPaths += r.badPath
+					if r.badPathSeen != "" {
+						o.badPathSeen = r.badPathSeen
+					}
 					r.mu.Unlock()
 				}
 			}
@@ -724,6 +717,9 @@ func run(c *Case) (*observation, error) {
 		r.mu.Lock()
 		o.served = append(o.served, r.served...)
 		o.badPaths += r.badPath
+		if r.badPathSeen != "" {
+			o.badPathSeen = r.badPathSeen
+		}
 		if r.maxOver > o.maxLag {
 			o.maxLag = r.maxOver
 		}
@@ -1226,7 +1222,7 @@ func check(t ev.TB, c *Case) {
 		ev.Sample(c)
 	}
 	if o.badPaths > 0 {
-		t.Fatalf("harness problem: %d header requests with an unexpected path", o.badPaths)
+		t.Fatalf("harness problem: %d header requests with an unexpected path: %s", o.badPaths, o.badPathSeen)
 	}
 	if o.panicked != "" {
 		// a panic in the calling goroutine is C16's subject; here it only means the case cannot be judged
@@ -1277,7 +1273,7 @@ func checkHistory(t ev.TB, c *Case, o *observation) {
 		ev.Sample(c)
 	}
 	if o.badPaths > 0 {
-		t.Fatalf("harness problem: %d header requests with an unexpected path", o.badPaths)
+		t.Fatalf("harness problem: %d header requests with an unexpected path: %s", o.badPaths, o.badPathSeen)
 	}
 	if o.hist.hung {
 		ev.Inconclusive("a call of the history returned only after the relays were released")
